@@ -274,7 +274,7 @@ pub fn rand_cfg(rng: &mut Rng) -> CfgSpec {
 fn rand_cfg_raw(rng: &mut Rng) -> CfgSpec {
     let cid_len = rng.below(11) as usize;
     CfgSpec {
-        rx: *rng.pick(&[32, 64, 128, 512]),
+        rx: *rng.pick(&[32, 64, 128, 300, 512]),
         tx: *rng.pick(&[48, 64, 96, 128, 256, 1152]),
         ka: *rng.pick(&[0, 0, 4, 60]),
         exp: *rng.pick(&[0, 1, 300, 86400, u32::MAX]),
